@@ -14,6 +14,7 @@ type bufReader interface {
 	Discard(int) (int, error)
 	Peek(n int) ([]byte, error)
 	ReadString(delim byte) (string, error)
+	ReadSlice(delim byte) ([]byte, error)
 }
 
 type bufWriter interface {
@@ -56,6 +57,10 @@ func (u *nobufReader) Peek(n int) ([]byte, error) {
 
 func (u *nobufReader) ReadString(delim byte) (string, error) {
 	return "", errors.New("unimplemented")
+}
+
+func (u *nobufReader) ReadSlice(delim byte) ([]byte, error) {
+	return nil, errors.New("unimplemented")
 }
 
 type nobufWriter struct {
